@@ -23,8 +23,9 @@ Theorems, for every world satisfying the two structural invariants that `build` 
 * `find_equiv`, `has_equiv`, `location_equiv` — `FindFeatureByID` / `HasFeatureWithID` / `FindLocationByID`: the
   in-memory id map and the compact per-type blocks answer alike; `ids_equiv` — the compact `EachFeature` order
   (blocks, buckets, ids sorted per bucket) is a permutation of the in-memory id map, for any bucket count;
-* `search_equiv` — tag search in ID order: array index and posting-list index built from the same features in
-  any two orders return the same list (C03's `find_features_spec` for both index kinds);
+* `search_equiv` — tag search in ID order: the in-memory array/tree index and the compact posting-list index built
+  from the same features in any two orders return the same list (C03 `find_features_spec` /
+  `find_features_spec_compact`);
 * `traverse_scan_equiv` — the segment computation of `traverse` (first node in either direction, end points
   always nodes) and of `fillPathSegments` (`previous` / `next` with defaults) agree for any node predicate;
   `count_equiv` — the two intersection tests count the same paths; hence
@@ -858,16 +859,27 @@ theorem expected_perm (fs fs' : List B6.Spec.TagQuery.Feature) (hp : fs.Perm fs'
   rw [mem_sortDedup, mem_sortDedup]
   exact ((hp.filter _).map _).mem_iff
 
-/-- **tag search, in ID order**: the in-memory world (array index, features added in map order) and the compact
-world (posting lists, features added in block order) return the same ids in the same order for every query over
-searchable tags — both return `expected` (C03 `find_features_spec`, which holds for every index kind). -/
-theorem search_equiv (k1 k2 : LeafKind) (fs fs' : List B6.Spec.TagQuery.Feature) (hp : fs.Perm fs') (hfs : ∀ f ∈ fs, FeatureOK f)
-    (hid : (fs.map B6.Spec.TagQuery.Feature.id).Nodup) (q : B6.Spec.TagQuery.Query) (hq : QueryOK q) :
-    findFeatures (buildIndex k1 fs) q = findFeatures (buildIndex k2 fs') q := by
+/-- **tag search, in ID order**: the in-memory world (array or tree index, features added in map order) and the
+compact world (C08 posting lists read by the byte-level `compact.Iterator` model, features added in block order,
+namespace table `names`) return the same ids in the same order for every query over searchable tags — both
+return `expected` (C03 `find_features_spec` on one side, `find_features_spec_compact` on the other). -/
+theorem search_equiv (kind : LeafKind) (hkind : kind ≠ .compact) (names : List String)
+    (ht : B6.Model.Posting.TableOK ⟨names⟩) (hne : names ≠ [])
+    (fs fs' : List B6.Spec.TagQuery.Feature) (hp : fs.Perm fs') (hfs : ∀ f ∈ fs, FeatureOK f)
+    (hid : (fs.map B6.Spec.TagQuery.Feature.id).Nodup) (hcf : ∀ f ∈ fs, B6.Props.C03.CompactFeatureOK names f)
+    (q : B6.Spec.TagQuery.Query) (hq : QueryOK q) :
+    findFeatures (buildIndex kind fs) q = findFeatures (buildIndex .compact fs' names) q := by
   have hfs' : ∀ f ∈ fs', FeatureOK f := fun f hf => hfs f (hp.mem_iff.mpr hf)
+  have hcf' : ∀ f ∈ fs', B6.Props.C03.CompactFeatureOK names f := fun f hf => hcf f (hp.mem_iff.mpr hf)
   have hid' : (fs'.map B6.Spec.TagQuery.Feature.id).Nodup := (hp.map _).nodup_iff.mp hid
-  rw [B6.Props.C03.find_features_spec k1 fs hfs hid q hq, B6.Props.C03.find_features_spec k2 fs' hfs' hid' q hq,
-    expected_perm fs fs' hp q]
+  rw [B6.Props.C03.find_features_spec kind hkind fs hfs hid q hq,
+    B6.Props.C03.find_features_spec_compact names ht hne fs' hfs' hid' hcf' q hq, expected_perm fs fs' hp q]
+
+/-- non-vacuity: C03's example features, table and query satisfy the hypotheses (shown there); the two worlds'
+searches over them, indexed in opposite orders, agree -/
+example : (findFeatures (buildIndex .array B6.Props.C03.exFeatures) B6.Props.C03.exQuery).toOption =
+    (findFeatures (buildIndex .compact B6.Props.C03.exFeatures.reverse ["", "a", "b"]) B6.Props.C03.exQuery).toOption := by
+  decide
 
 end search
 
